@@ -153,10 +153,32 @@ func genC19(seed uint64, i int, tier string) *Scenario {
 	if n >= 8 && nst > 12 {
 		nst = 12
 	}
+	// statements with byte-identical text in several clients (state keyed by
+	// query text — plan/AST/result caches — is only shared then); not in the
+	// shared read-write topology, where an unscoped read would legitimately see
+	// other clients' writes
+	var common []Stmt
+	if topo != TopoSharedRW {
+		g := newGen(r, StoreMixed)
+		for k := 0; k < 4; k++ {
+			common = append(common, Stmt{Text: g.Select(r.Bool()).Render(false), Mode: genMode(r)})
+		}
+		common = append(common,
+			Stmt{Text: "select count(1), sum(int(value)), max(int(value)) where key ^= 'c'", Mode: genMode(r)},
+			Stmt{Text: "select value, count(1) as n, group_concat(key, ',') where key ^= 'c' group by value order by n desc, value limit 5", Mode: genMode(r)},
+			Stmt{Text: "select key, upper(value) as u where u ~= '^[V0-9]' & key ^= 'c'", Mode: genMode(r)},
+			Stmt{Text: "select key, int(value) / (int(value) - int(value)) where key ^= 'c'", Mode: genMode(r)})
+	}
 	total := 0
 	for c := 0; c < n; c++ {
 		var cl Client
 		for s := 0; s < nst; s++ {
+			if len(common) > 0 && r.Chance(0.25) {
+				st := pick(r, common)
+				st.Mode = genMode(r)
+				cl.Stmts = append(cl.Stmts, st)
+				continue
+			}
 			cl.Stmts = append(cl.Stmts, c19Stmt(r, c, topo == TopoSharedRO, topo == TopoSharedRW))
 		}
 		total += nst
